@@ -113,17 +113,17 @@ def add_header_to_file(
             )
             out.write("\n")
             path = _determine_license_suffix_path(path)
-            if path.is_symlink():
-                out.write(
-                    _(
-                        "Error: '{path}' is a symbolic link; not writing the"
-                        " header through it"
-                    ).format(path=path)
-                )
-                out.write("\n")
-                return 1
-            created_license_file = not path.exists()
             try:
+                if path.is_symlink():
+                    out.write(
+                        _(
+                            "Error: '{path}' is a symbolic link; not writing"
+                            " the header through it"
+                        ).format(path=path)
+                    )
+                    out.write("\n")
+                    return 1
+                created_license_file = not path.exists()
                 path.touch()
             except OSError as error:
                 out.write(
